@@ -144,6 +144,9 @@ Pre(s, op, a) ==
     [] op = "set_flow" -> a.x \in Names /\ a.p \in Range(t[a.x].ph) /\ a.c \in PkgChems[t[a.x].pkg] /\ a.v >= 0
     [] op = "set_T" -> a.x \in Names
     [] op = "set_P" -> a.x \in Names
+    \* a vapour-liquid calculation at (T, P) on a multi-phase stream through its solver object, the phase flows then written back as
+    \* they were: the stream (and whoever shares its thermal condition) is at (T, P), nothing else changed
+    [] op = "flash_TP" -> a.x \in Names /\ t[a.x].k = "m" /\ {"g", "l"} \subseteq Range(t[a.x].ph) /\ ~Empty(t[a.x])
     \* assign the enthalpy / entropy the stream already has and put the temperature back (entropy: gas only, see the C02 findings)
     [] op = "reassign" -> /\ a.x \in Names /\ ~Empty(t[a.x]) /\ a.q \in {"H", "S"}
                           /\ a.q = "S" => \A i \in DOMAIN t[a.x].ph : IsZero(t[a.x].fl[t[a.x].ph[i]]) \/ t[a.x].ph[i] = "g"
@@ -232,6 +235,7 @@ Post(s, op, a) ==
     [] op = "set_T" -> [s EXCEPT !.st = PutTP(t, a.x, a.T, t[a.x].P)]
     [] op = "view_set_T" -> [s EXCEPT !.st = PutTP(t, a.x, a.T, t[a.x].P)]
     [] op = "set_P" -> [s EXCEPT !.st = PutTP(t, a.x, t[a.x].T, a.P)]
+    [] op = "flash_TP" -> [s EXCEPT !.st = PutTP(t, a.x, a.T, a.P)]
     [] op = "reassign" -> s
     [] op = "set_phases" ->
          IF Cardinality(Range(a.phs)) = 1 THEN
@@ -404,6 +408,8 @@ Judge(s, e) ==
         ELSE IF \E x \in Names : u[x].T # p.st[x].T \/ u[x].P # p.st[x].P THEN "post.TP"
         ELSE "post.price_cf")
   ELSE IF op \in {"copy", "pickle", "proxy", "flow_proxy", "link_with", "unlink", "copy_like"} /\ ~e.obs.behaves THEN "sharing.behaviour"
+  \* the loaded stream has the chemicals (constants, reference phase, locked state) and the enthalpy of the one that was pickled
+  ELSE IF op = "pickle" /\ ~e.obs.carried THEN "pickle.package_not_carried"
   ELSE "ok"
 
 ObsLegal(e) == TRUE
